@@ -134,6 +134,7 @@ func engineFilterAccepts(q string, pairs []KV) (acc []KV, err error, panicked st
 			panicked = fmt.Sprint(r)
 		}
 	}()
+	filterHadError = false
 	_, fe, err := kvql.BuildExecutor(q)
 	if err != nil {
 		return nil, err, ""
@@ -143,7 +144,10 @@ func engineFilterAccepts(q string, pairs []KV) (acc []KV, err error, panicked st
 		ctx.Clear()
 		ok, err := fe.Filter(kvql.NewKVP(p.K, p.V), ctx)
 		if err != nil {
-			return nil, err, ""
+			// the clause is not evaluable on this pair (e.g. a reversed BETWEEN): pairs the filter accepts
+			// without evaluating that part must still be covered by the region
+			filterHadError = true
+			continue
 		}
 		if ok {
 			acc = append(acc, p)
@@ -151,6 +155,8 @@ func engineFilterAccepts(q string, pairs []KV) (acc []KV, err error, panicked st
 	}
 	return acc, nil, ""
 }
+
+var filterHadError bool
 
 func kvKeys(p []KV) [][]int {
 	r := make([][]int, len(p))
@@ -444,7 +450,7 @@ func randKeyAtom(r *rand.Rand) *Node {
 		return AIn(AKey(), items...)
 	case 7:
 		a, b := randLit(r, 3), randLit(r, 3)
-		if a > b {
+		if a > b && r.Intn(8) != 0 { // now and then a reversed range: refused when evaluated, must not narrow the scan
 			a, b = b, a
 		}
 		if a == b {
@@ -561,6 +567,43 @@ func recordRegion(args []string) {
 			continue
 		}
 		out.Stats.distinct(text, len(acc) > 0)
+		if filterHadError || hasReversedBetween(e) {
+			// not evaluable on every pair: only "the region covers what the filter accepts" is judged
+			o, _ := RunOn(selQ, pairs, RunOpts{Mode: "row", BSize: 32, Cache: true, NoLog: true})
+			out.Stats.Evaluations++
+			out.Stats.bump("partly-evaluable")
+			if o.Phase == "rejected" || o.Phase == "panic" {
+				continue
+			}
+			// A clause the filter refuses to evaluate on some pair (a reversed BETWEEN) decides nothing about
+			// that pair: a key "can satisfy" the WHERE if it does with the refused atoms read as true or as false.
+			// The region of the statement has to cover all of those keys (what a full scan would have looked at).
+			may := map[string]KV{}
+			for _, p := range acc {
+				may[string(p.K)] = p
+			}
+			if filterHadError {
+				for _, v := range reversedVariants(e) {
+					vacc, verr, vpanic := engineFilterAccepts("select * where "+v.Text(), pairs)
+					if verr != nil || vpanic != "" || filterHadError {
+						continue
+					}
+					for _, p := range vacc {
+						may[string(p.K)] = p
+					}
+				}
+				out.Stats.bump("refused-atom-variants")
+			}
+			accMay := []KV{}
+			for _, p := range pairs {
+				if _, ok := may[string(p.K)]; ok {
+					accMay = append(accMay, p)
+				}
+			}
+			acc = accMay
+			out.Trace("region", regionTrace{ID: id, Q: selQ, Plan: o.Plan, Acc: kvKeys(acc), Rows: kvKeys(acc), RowsB: kvKeys(acc), Before: [][]int{}, After: [][]int{}})
+			continue
+		}
 		if i%500 == 0 {
 			out.Stats.sample(map[string]any{"query": selQ, "store_pairs": len(pairs), "accepted": len(acc)})
 		}
@@ -595,4 +638,76 @@ func recordRegion(args []string) {
 			out.Trace("region", tr)
 		}
 	}
+}
+
+// hasReversedBetween: a BETWEEN over text literals whose lower bound sorts after the upper one is
+// refused when evaluated; whether a row reaches it depends on short-circuiting (row mode) or not (batch mode).
+func hasReversedBetween(n *Node) bool {
+	if n.K == "bin" && n.Op == "between" && len(n.A) == 2 && len(n.A[1].A) == 2 &&
+		n.A[1].A[0].K == "str" && n.A[1].A[1].K == "str" && string(ib(n.A[1].A[0].S)) > string(ib(n.A[1].A[1].S)) {
+		return true
+	}
+	for _, c := range n.A {
+		if hasReversedBetween(c) {
+			return true
+		}
+	}
+	return false
+}
+
+func sameKeys(a, b [][]int) bool {
+	if len(a) != len(b) {
+		return false
+	}
+	for i := range a {
+		if string(ib(a[i])) != string(ib(b[i])) {
+			return false
+		}
+	}
+	return true
+}
+
+// reversedVariants: the tree with every reversed BETWEEN replaced by an opaque atom that is true on every
+// pair of the record stores (value ^= 'v') or false on every pair (value ^= 'w'), in all combinations (at most 8).
+func reversedVariants(e *Node) []*Node {
+	n := 0
+	var count func(x *Node)
+	count = func(x *Node) {
+		if hasReversedBetween(x) && x.K == "bin" && x.Op == "between" {
+			n++
+			return
+		}
+		for _, c := range x.A {
+			count(c)
+		}
+	}
+	count(e)
+	if n == 0 || n > 3 {
+		return nil
+	}
+	out := []*Node{}
+	for mask := 0; mask < 1<<n; mask++ {
+		i := 0
+		var sub func(x *Node) *Node
+		sub = func(x *Node) *Node {
+			if x.K == "bin" && x.Op == "between" && hasReversedBetween(x) {
+				lit := "w"
+				if mask&(1<<i) != 0 {
+					lit = "v"
+				}
+				i++
+				return ABin("^=", AVal(), AStr(lit))
+			}
+			cp := *x
+			cp.A = make([]*Node, len(x.A))
+			for k, c := range x.A {
+				cp.A[k] = sub(c)
+			}
+			return &cp
+		}
+		v := sub(e)
+		v.fix()
+		out = append(out, v)
+	}
+	return out
 }
